@@ -143,10 +143,10 @@ MUTANTS = [
      "        return current_point\n\n    def _handle_case_b"),
     # ---- C13: broadcaster
     ("c13-no-restore-parameter", "C13", "pylife/core/broadcaster.py",
-     "        self._operand.index =self._operand_index", "        pass"),
+     "            parameter.index = original_parameter_index\n", "            pass\n"),
     ("c13-none-names-not-restored", "C13", "pylife/core/broadcaster.py",
-     "_replace_unique_string_with_none_name([obj, prm, self._obj, parameter], uuids)",
-     "_replace_unique_string_with_none_name([obj, prm, parameter], uuids)"),
+     "            _replace_unique_string_with_none_name([self._obj, parameter], uuids)\n",
+     "            _replace_unique_string_with_none_name([parameter], uuids)\n"),
     ("c13-restore-wrong-level", "C13", "pylife/core/broadcaster.py",
      "                    self.index_levels[name][new_index.get_level_values(name) - self._code_offsets[name]]\n                    for name in new_index.names",
      "                    self.index_levels[name][new_index.get_level_values(name) - self._code_offsets[name]]\n                    for name in sorted(new_index.names, key=str)"),
